@@ -109,6 +109,33 @@ class Extractor:
             return False
         return True
 
+    def decide(self, cond, depth=0):
+        """value of a condition on the specialised subject (the operator token): `x == "lit"`, `x != "lit"`, `x.starts_with("lit")`, through `!`,
+        && / || and immutable bool lets; None when it depends on anything else"""
+        if self.spec is None or depth > 8:
+            return None
+        c = resolve(cond)
+        if c.get("k") == "unary" and c["op"] == "!":
+            v = self.decide(c["e"], depth + 1)
+            return None if v is None else (not v)
+        if c.get("k") == "binary" and c["op"] in ("&&", "||"):
+            a, b = self.decide(c["l"], depth + 1), self.decide(c["r"], depth + 1)
+            if c["op"] == "&&":
+                return False if (a is False or b is False) else (True if (a and b) else None)
+            return True if (a is True or b is True) else (False if (a is False and b is False) else None)
+        if c.get("k") == "binary" and c["op"] in ("==", "!="):
+            for a_, b_ in ((c["l"], c["r"]), (c["r"], c["l"])):
+                v = self.spec(a_)
+                lit = peel(b_)
+                if v is not None and lit.get("k") == "lit":
+                    return (lit.get("v") == v) == (c["op"] == "==")
+        if c.get("k") == "mcall" and c["name"] in ("starts_with", "ends_with") and len(c["args"]) == 1:
+            v = self.spec(c["recv"])
+            lit = peel(c["args"][0])
+            if isinstance(v, str) and lit.get("k") == "lit" and isinstance(lit.get("v"), str):
+                return v.startswith(lit["v"]) if c["name"] == "starts_with" else v.endswith(lit["v"])
+        return None
+
     @staticmethod
     def _discarded_helper(s_):
         x = s_
@@ -223,14 +250,9 @@ class Extractor:
                             return self.ev(arm["body"], env, depth + 1)
                 raise Opaque(n, "no arm for `%s`" % v)
         if k == "if" and self.spec is not None and "else" in n:
-            c = resolve(n["cond"])
-            if c.get("k") == "binary" and c["op"] in ("==", "!="):
-                for a_, b_ in ((c["l"], c["r"]), (c["r"], c["l"])):
-                    v = self.spec(a_)
-                    lit = peel(b_)
-                    if v is not None and lit.get("k") == "lit":
-                        take_then = (lit.get("v") == v) == (c["op"] == "==")
-                        return self.ev(n["then"] if take_then else n["else"], env, depth + 1)
+            dec = self.decide(n["cond"])
+            if dec is not None:
+                return self.ev(n["then"] if dec else n["else"], env, depth + 1)
         if k in ("if", "match", "for", "while", "loop"):
             raise Opaque(n, "data-dependent control flow (%s)" % k)
         if k == "cast":
